@@ -99,6 +99,31 @@ fn axis_volume(a: &[f64]) {
     println!("{}", json!({"volume": profile.volume().to_reduced(), "integral_of_one": integral.to_reduced()}));
 }
 
+/// C03-c: which root does new_npt return? PR propane at subcritical (T, p) points where both roots exist.
+/// args: Tc pc omega
+fn root_selection(a: &[f64]) {
+    let pr = Arc::new(PengRobinson::new(Arc::new(
+        PengRobinsonParameters::new_simple(&[a[0]], &[a[1]], &[a[2]], &[44.0]).unwrap(),
+    )));
+    let moles = arr1(&[1.0]) * MOL;
+    let mut pts = vec![];
+    for (tr, pr_) in [(0.7, 0.05), (0.7, 0.2), (0.8, 0.2), (0.8, 0.4), (0.9, 0.45), (0.9, 0.6), (0.6, 0.02), (0.6, 0.3)] {
+        let (t, p) = (tr * a[0] * KELVIN, pr_ * a[1] * PASCAL);
+        let l = State::new_npt(&pr, t, p, &moles, DensityInitialization::Liquid);
+        let v = State::new_npt(&pr, t, p, &moles, DensityInitialization::Vapor);
+        let n = State::new_npt(&pr, t, p, &moles, DensityInitialization::None);
+        if let (Ok(l), Ok(v), Ok(n)) = (&l, &v, &n) {
+            let il = State::new_npt(&pr, t, p, &moles, DensityInitialization::InitialDensity(l.density * 1.02));
+            let iv = State::new_npt(&pr, t, p, &moles, DensityInitialization::InitialDensity(v.density * 0.98));
+            let r = |s: &State<PengRobinson>| s.density.to_reduced();
+            pts.push(json!({"Tr": tr, "pr": pr_, "rho_liquid": r(l), "rho_vapor": r(v), "rho_none": r(n),
+                "g_liquid": l.residual_gibbs_energy().to_reduced(), "g_vapor": v.residual_gibbs_energy().to_reduced(),
+                "rho_init_near_liquid": il.as_ref().map(r).unwrap_or(f64::NAN), "rho_init_near_vapor": iv.as_ref().map(r).unwrap_or(f64::NAN)}));
+        }
+    }
+    println!("{}", json!({"points": pts}));
+}
+
 fn main() {
     let args: Vec<String> = std::env::args().collect();
     let nums: Vec<f64> = args[2..].iter().map(|x| x.parse().unwrap()).collect();
@@ -106,6 +131,7 @@ fn main() {
         "density_exhaustion" => density_exhaustion(&nums),
         "density_scan" => density_scan(&nums),
         "loss" => loss(&nums),
+        "root_selection" => root_selection(&nums),
         "axis_volume" => axis_volume(&nums),
         o => panic!("unknown replay {o}"),
     }
